@@ -15,10 +15,14 @@ def prep(sid):
     r = subprocess.run(["git", "apply", "--whitespace=nowarn", "--include=xandikos/*", "/verif/seeded/%s/patch.diff" % sid], cwd=d, capture_output=True, text=True)
     return r.returncode == 0
 
-def work(a):
-    sid, prop = a
+def base_of(prop):
     from xstatic import core
-    base = {o.key for o in core.run_property(prop, "/repo", "quick").violated}
+    return prop, sorted(o.key for o in core.run_property(prop, "/repo", "quick").violated)
+
+def work(a):
+    sid, prop, base = a
+    base = set(base)
+    from xstatic import core
     r = core.run_property(prop, os.path.join(BASE, sid), "quick")
     new = [o for o in r.violated if o.key not in base]
     return sid, prop, ["%s/%s %s" % (prop, o.rule, o.construct) for o in new], [e[:200] for e in r.errors]
@@ -28,7 +32,9 @@ if __name__ == "__main__":
     ids = [s for s in ids if prep(s)]
     res = {}
     with ProcessPoolExecutor(16) as ex:
-        for sid, prop, viol, errs in ex.map(work, [(s, p) for s in ids for p in PROPS], chunksize=2):
+        BASEK = dict(ex.map(base_of, PROPS))
+    with ProcessPoolExecutor(16) as ex:
+        for sid, prop, viol, errs in ex.map(work, [(s, p, BASEK[p]) for s in ids for p in PROPS], chunksize=2):
             if viol or errs:
                 res.setdefault(sid, {})[prop] = {"exit": 1 if viol else 2, "violated": viol, "errors": ["ANALYSIS-ERROR property=%s %s" % (prop, e) for e in errs][:3]}
     own = anyc = 0
